@@ -268,17 +268,14 @@ func splitNode[T any](n *node[T], pos int) (*node[T], error) {
 		return nil, err
 	}
 	ret := p.newChild(segs[0])
-	c := ret.newChild(segs[1])
-	c.handlers = n.handlers
-	c.methodIndex = n.methodIndex
-	c.methods.Store(n.methods.Load())
-	c.children = n.children
-	c.indexes = n.indexes
-	for _, item := range c.children {
-		item.parent = c
-	}
 
-	// ret 和 c 的内容在 newChild 之后被修改，所以需要对其子元素重新排序。
+	// n 本身作为 ret 的子节点保留下来：已经生成的 OPTIONS 和 405 处理方法引用着该对象，
+	// 如果换成新对象，这些处理方法将无法获得之后添加的请求方法。
+	n.parent = ret
+	n.segment = segs[1]
+	ret.children = append(ret.children, n)
+
+	// ret 的内容在 newChild 之后被修改，所以需要对其子元素重新排序。
 	ret.sort()
 	p.sort()
 
